@@ -23,6 +23,10 @@ class TLCResult:
         self.generated = int(m.group(1)) if m else 0
         self.distinct = int(m.group(2)) if m else 0
         self.left = int(m.group(3)) if m else 0
+        if not m:                                   # simulation mode reports differently
+            m2 = re.search(r"The number of states generated: (\d+)", out)
+            if m2:
+                self.generated = self.distinct = int(m2.group(1))
         m = re.search(r"The depth of the complete state graph search is (\d+)", out)
         self.depth = int(m.group(1)) if m else 0
         self.violated = re.findall(r"Error: Invariant (\S+) is violated", out)
